@@ -52,6 +52,7 @@ class DocBuilder:
        foreign_formal probability that a record also carries a PROV formal attribute of another kind
        refused    probability (per document) that the history goes on with edits the library refuses (a second, different value
                   for a formal attribute of an existing record); the caller catches the error and carries on
+       reinstant  probability that a time repeats the instant of an earlier zone-aware one in another zone
        reclock    probability that a time repeats the clock reading of an earlier one under another UTC offset
        twins      probability (per attribute) of repeating an earlier URI-valued attribute with the other kind of value
        malformed  probability of a deliberately invalid argument (error branches)
@@ -63,7 +64,7 @@ class DocBuilder:
         self.w = w
         self.o = dict(clash=0.2, foreign=0.15, value_kinds=None, repeat_id=0.2, malformed=0.05,
                       paths=("new_record", "factory", "conv"), defaults=0.3, bare=True, fulluri=True,
-                      multi=0.2, anon=0.5, dup_formal=0.06, xml=False, subtypes=0.0, plain_binary=0.0, twins=0.0, redefault=0.0, reclock=0.0, foreign_formal=0.0, refused=0.0,
+                      multi=0.2, anon=0.5, dup_formal=0.06, xml=False, subtypes=0.0, plain_binary=0.0, twins=0.0, redefault=0.0, reclock=0.0, foreign_formal=0.0, refused=0.0, reinstant=0.0,
                       free_bundle=float(__import__("os").environ.get("VERIF_FREE_BUNDLE", "0.15")))
         self.o.update(opts)
         self.ids = {}        # scope -> list of identifiers used (QualifiedName objects as returned)
@@ -181,6 +182,15 @@ class DocBuilder:
             t0 = self.g.choice(self.times[-4:])
             tzs = [None, _dt.timezone.utc, _dt.timezone(_dt.timedelta(hours=5)), _dt.timezone(_dt.timedelta(hours=-3))]
             t = t0.replace(tzinfo=self.g.choice([z for z in tzs if (None if z is None else z.utcoffset(None)) != t0.utcoffset()]))
+        elif self.o.get("reinstant") and self.g.chance(self.o["reinstant"]):
+            # the *instant* of an earlier zone-aware time, written in another zone: equal as a Python datetime (and one value for
+            # the single-value guard), another lexical form
+            import datetime as _dt
+            aware = [x for x in self.times[-6:] if x.tzinfo is not None and 2 <= x.year <= 9998]
+            if aware:
+                t0 = self.g.choice(aware)
+                mins = self.g.choice([m for m in (0, 60, -300, 330, -210, 765) if _dt.timedelta(minutes=m) != t0.utcoffset()])
+                t = t0.astimezone(_dt.timezone(_dt.timedelta(minutes=mins)))
         self.times.append(t)
         k = self.g.rng.random()
         if k < 0.5:
